@@ -234,7 +234,7 @@ check(
     'C20',
     'exploration',
     'Every description of the grammar with list/scalar shapes within the stated ball is built and its hierarchy compared with the distribution rule; every member of the single-fault table applied to each valid base must be rejected at construction or first run; every subset of a pool of user-addable convergence controllers '
-    'is instantiated once, ordered by control_order (order array and observed call order of every callback loop), with user parameters overriding defaults; per-level transfer entries (part D); read-only declarations of every importable problem class recorded at the registration call (part E).',
+    'is instantiated once (as is every class asked for as a dependency, recorded at the add_convergence_controller call), ordered by control_order (order array and observed call order of every callback loop), with user parameters overriding defaults; per-level transfer entries (part D); read-only declarations of every importable problem class recorded at the registration call (part E).',
     'Trusted: the fault table only demands rejection of what the property statement lists and where the faulty entry is consulted.',
     'exhaustive enumeration over a description grammar and a single-fault table',
     'E2',
